@@ -1181,4 +1181,287 @@ theorem applyTokEdits_deltaEdits {α : Type} [DecidableEq α] (previous current 
     rw [e, htake, hdrop]
     exact split3 current pre suf hs3
 
+/-! ### Token sessions -/
+
+/-- Invariant of a token session: result ids handed out are below the counter, and whenever the
+server's cached entry carries the id the editor holds, the cached array IS the editor's array
+(ids are drawn from a counter, so an id names one answer). -/
+def TokInv {α : Type} (st : TokState α) : Prop :=
+  (∀ id prev, st.srv.cache = some (id, prev) → id < st.srv.nextId) ∧
+  (∀ id arr, st.held = some (id, arr) →
+    id < st.srv.nextId ∧ ∀ prev, st.srv.cache = some (id, prev) → prev = arr)
+
+theorem tokInv_init {α : Type} : TokInv (tokInit : TokState α) := by
+  constructor
+  · intro id prev h; simp [tokInit] at h
+  · intro id arr h; simp [tokInit] at h
+
+/-- What a consumed delta answer leaves in the editor's hands. -/
+theorem tokDelta_consumed {α : Type} [DecidableEq α] (srv : Impl.TokSrv α) (hid : Nat)
+    (harr cur : List α)
+    (hinv : ∀ prev, srv.cache = some (hid, prev) → prev = harr) :
+    Spec.tokConsume (some (hid, harr)) (Impl.tokDelta srv hid cur).2 = some (srv.nextId, cur) := by
+  unfold Impl.tokDelta
+  cases hc : srv.cache with
+  | none => simp [Spec.tokConsume]
+  | some e =>
+    obtain ⟨id, prev⟩ := e
+    by_cases hid' : id = hid
+    · subst hid'
+      have := hinv prev hc
+      subst this
+      simp [Spec.tokConsume, applyTokEdits_deltaEdits]
+    · simp [hid', Spec.tokConsume]
+
+theorem tokDelta_srv {α : Type} [DecidableEq α] (srv : Impl.TokSrv α) (hid : Nat) (cur : List α) :
+    (Impl.tokDelta srv hid cur).1 = { nextId := srv.nextId + 1, cache := some (srv.nextId, cur) } := by
+  unfold Impl.tokDelta
+  cases srv.cache with
+  | none => rfl
+  | some e =>
+    obtain ⟨id, prev⟩ := e
+    by_cases h : id = hid <;> simp [h]
+
+/-- After a request that stored `(n, cur)` under a counter that moved to `n + 1`, the invariant
+holds for an editor that took the answer `(n, cur)` or kept what it held. -/
+theorem tokInv_after {α : Type} (st : TokState α) (cur : List α) (held' : Option (Nat × List α))
+    (hinv : TokInv st)
+    (hheld : held' = some (st.srv.nextId, cur) ∨ held' = st.held) :
+    TokInv { srv := { nextId := st.srv.nextId + 1, cache := some (st.srv.nextId, cur) }, held := held' } := by
+  constructor
+  · intro id prev h
+    simp only [Option.some.injEq, Prod.mk.injEq] at h
+    show id < st.srv.nextId + 1
+    omega
+  · intro id arr h
+    simp only at h
+    show id < st.srv.nextId + 1 ∧ ∀ prev, some (st.srv.nextId, cur) = some (id, prev) → prev = arr
+    rcases hheld with hh | hh
+    · rw [hh] at h
+      simp only [Option.some.injEq, Prod.mk.injEq] at h
+      obtain ⟨h1, h2⟩ := h
+      subst h1; subst h2
+      refine ⟨by omega, ?_⟩
+      intro prev hp
+      simp only [Option.some.injEq, Prod.mk.injEq] at hp
+      exact hp.2.symm
+    · rw [hh] at h
+      have := (hinv.2 id arr h).1
+      refine ⟨by omega, ?_⟩
+      intro prev hp
+      simp only [Option.some.injEq, Prod.mk.injEq] at hp
+      omega
+
+theorem tokStep_inv {α : Type} [DecidableEq α] (st st' : TokState α) (e : TokEv α)
+    (hinv : TokInv st) (h : tokStep st e = some st') : TokInv st' := by
+  cases e with
+  | full cur c =>
+    simp only [tokStep, Impl.tokFull, Option.some.injEq] at h
+    subst h
+    apply tokInv_after st cur _ hinv
+    cases c <;> simp [Spec.tokConsume]
+  | delta cur c =>
+    simp only [tokStep] at h
+    cases hh : st.held with
+    | none => simp [hh] at h
+    | some hd =>
+      obtain ⟨hid, harr⟩ := hd
+      simp only [hh, Option.some.injEq] at h
+      subst h
+      rw [tokDelta_srv]
+      apply tokInv_after st cur _ hinv
+      cases c with
+      | false => right; simp [hh]
+      | true =>
+        left
+        simp only [if_true]
+        exact tokDelta_consumed st.srv hid harr cur (hinv.2 hid harr hh).2
+  | forget =>
+    simp only [tokStep, Impl.tokForget, Option.some.injEq] at h
+    subst h
+    constructor
+    · intro id prev hc; simp at hc
+    · intro id arr hh
+      exact ⟨(hinv.2 id arr hh).1, by intro prev hc; simp at hc⟩
+  | other =>
+    simp only [tokStep, Impl.tokOther, Option.some.injEq] at h
+    subst h
+    constructor
+    · intro id prev hc
+      have := hinv.1 id prev hc
+      simp; omega
+    · intro id arr hh
+      have := hinv.2 id arr hh
+      exact ⟨by simp; omega, this.2⟩
+
+theorem tokRun_inv {α : Type} [DecidableEq α] (evs : List (TokEv α)) (st st' : TokState α)
+    (hinv : TokInv st) (h : tokRun st evs = some st') : TokInv st' := by
+  induction evs generalizing st with
+  | nil => simp only [tokRun, Option.some.injEq] at h; subst h; exact hinv
+  | cons e es ih =>
+    simp only [tokRun] at h
+    cases hs : tokStep st e with
+    | none => simp [hs] at h
+    | some st1 =>
+      simp only [hs] at h
+      exact ih st1 (tokStep_inv st st1 e hinv hs) h
+
+theorem tokRun_append {α : Type} [DecidableEq α] (a b : List (TokEv α)) (st st' : TokState α)
+    (h : tokRun st (a ++ b) = some st') : ∃ st1, tokRun st a = some st1 ∧ tokRun st1 b = some st' := by
+  induction a generalizing st with
+  | nil => exact ⟨st, rfl, h⟩
+  | cons e es ih =>
+    simp only [List.cons_append, tokRun] at h ⊢
+    cases hs : tokStep st e with
+    | none => simp [hs] at h
+    | some st1 => simp only [hs] at h ⊢; exact ih st1 h
+
+/-- The answer the editor consumes leaves it with the tokens of the current text. -/
+theorem tokStep_consumed {α : Type} [DecidableEq α] (st st' : TokState α) (cur : List α)
+    (e : TokEv α) (he : e = .full cur true ∨ e = .delta cur true)
+    (hinv : TokInv st) (h : tokStep st e = some st') : ∃ id, st'.held = some (id, cur) := by
+  rcases he with he | he
+  · subst he
+    simp only [tokStep, Impl.tokFull, Option.some.injEq] at h
+    subst h
+    exact ⟨st.srv.nextId, by simp [Spec.tokConsume]⟩
+  · subst he
+    simp only [tokStep] at h
+    cases hh : st.held with
+    | none => simp [hh] at h
+    | some hd =>
+      obtain ⟨hid, harr⟩ := hd
+      simp only [hh, Option.some.injEq] at h
+      subst h
+      exact ⟨st.srv.nextId, by
+        simp only [if_true]
+        exact tokDelta_consumed st.srv hid harr cur (hinv.2 hid harr hh).2⟩
+
+/-! ### Sources by key -/
+
+/-- The per-URI field `analysed` is what the shared database holds for the URI's key. -/
+def DbInv (key : Nat → Nat) (st : Impl.KStore) : Prop :=
+  ∀ v, st.db (key v) = (st.docs v).map (·.analysed)
+
+theorem db_set_key (key : Nat → Nat) (hk : ∀ a b, key a = key b → a = b)
+    (docs : Impl.Store) (db : Impl.Db) (u : Nat) (x : Option Impl.Doc)
+    (hinv : ∀ v, db (key v) = (docs v).map (·.analysed)) :
+    ∀ v, (db.set (key u) (x.map (·.analysed))) (key v) = ((docs.set u x) v).map (·.analysed) := by
+  intro v
+  by_cases hv : v = u
+  · subst hv; simp [Impl.Db.set, Impl.Store.set]
+  · have : key v ≠ key u := fun h => hv (hk _ _ h)
+    simp [Impl.Db.set, Impl.Store.set, hv, this, hinv v]
+
+theorem store_set_self (docs : Impl.Store) (u : Nat) : docs.set u (docs u) = docs := by
+  funext v
+  by_cases hv : v = u
+  · subst hv; simp [Impl.Store.set]
+  · simp [Impl.Store.set, hv]
+
+theorem dbIndex_inv (key : Nat → Nat) (hk : ∀ a b, key a = key b → a = b)
+    (docs : Impl.Store) (db : Impl.Db) (u : Nat) (disk : Option (List Char))
+    (hinv : ∀ v, db (key v) = (docs v).map (·.analysed)) :
+    ∀ v, (Impl.dbIndex key docs db u disk) (key v) =
+      ((docs.set u (Impl.step (docs u) (.watchedChanged disk))) v).map (·.analysed) := by
+  cases disk with
+  | none => simp only [Impl.dbIndex, Impl.step]; rw [store_set_self]; exact hinv
+  | some d =>
+    cases hd : docs u with
+    | none =>
+      simp only [Impl.dbIndex, Impl.step, hd]
+      exact db_set_key key hk docs db u (some { text := d, version := 0, isOpen := false, analysed := d }) hinv
+    | some doc =>
+      simp only [Impl.dbIndex, Impl.step, hd]
+      by_cases ho : doc.isOpen = true
+      · simp only [ho, if_true]; rw [← hd, store_set_self]; exact hinv
+      · simp only [ho]
+        by_cases ht : doc.text = d
+        · simp only [ht, if_true]
+          have : (if False then some doc else some doc) = some doc := by simp
+          simp only [Bool.false_eq_true, if_false]
+          rw [← hd, store_set_self]; exact hinv
+        · simp only [ht, Bool.false_eq_true, if_false]
+          exact db_set_key key hk docs db u (some { text := d, version := 0, isOpen := false, analysed := d }) hinv
+
+theorem kstep_inv (key : Nat → Nat) (hk : ∀ a b, key a = key b → a = b) (st : Impl.KStore)
+    (e : Impl.WEvent) (hinv : DbInv key st) : DbInv key (Impl.kstep key st e) := by
+  unfold DbInv Impl.kstep
+  simp only
+  cases e with
+  | doc u ev =>
+    cases ev with
+    | didOpen v t =>
+      simp only [Impl.dbStep, Impl.wstep, Impl.step]
+      exact db_set_key key hk st.docs st.db u (some { text := t, version := v, isOpen := true, analysed := t }) hinv
+    | didChange v cs =>
+      simp only [Impl.dbStep, Impl.wstep, Impl.step]
+      by_cases hc : cs.isEmpty = true
+      · simp only [hc, if_true]; rw [store_set_self]; exact hinv
+      · simp only [hc, Bool.false_eq_true, if_false]
+        cases hd : st.docs u with
+        | none => simp only []; rw [← hd, store_set_self]; exact hinv
+        | some doc =>
+          simp only []
+          cases ha : Impl.applyContentChanges doc.text cs with
+          | ok t =>
+            simp only []
+            exact db_set_key key hk st.docs st.db u (some { text := t, version := v, isOpen := true, analysed := t }) hinv
+          | rejected => simp only []; rw [← hd, store_set_self]; exact hinv
+          | panic => simp only []; rw [← hd, store_set_self]; exact hinv
+    | didClose =>
+      simp only [Impl.dbStep, Impl.wstep, Impl.step]
+      intro w
+      by_cases hw : w = u
+      · subst hw
+        simp only [Impl.Store.set, if_true]
+        rw [hinv w]; cases st.docs w <;> simp
+      · simp only [Impl.Store.set, hw, if_false]; exact hinv w
+    | didSave =>
+      simp only [Impl.dbStep, Impl.wstep, Impl.step]; rw [store_set_self]; exact hinv
+    | watchedChanged disk =>
+      simp only [Impl.dbStep, Impl.wstep]
+      exact dbIndex_inv key hk st.docs st.db u disk hinv
+    | watchedDeleted =>
+      simp only [Impl.dbStep, Impl.wstep, Impl.step]
+      cases hd : st.docs u with
+      | none => simp only []; rw [← hd, store_set_self]; exact hinv
+      | some doc =>
+        simp only []
+        by_cases ho : doc.isOpen = true
+        · simp only [ho, if_true]; rw [← hd, store_set_self]; exact hinv
+        · simp only [ho, Bool.false_eq_true, if_false]
+          exact db_set_key key hk st.docs st.db u none hinv
+  | renamed o n disk =>
+    simp only [Impl.dbStep, Impl.wstep]
+    cases hd : st.docs o with
+    | none => simp only []; exact dbIndex_inv key hk st.docs st.db n disk hinv
+    | some d =>
+      simp only []
+      have h1 := db_set_key key hk st.docs st.db o none hinv
+      by_cases ho : d.isOpen = true
+      · simp only [ho, if_true]
+        have h2 := db_set_key key hk (st.docs.set o none) (st.db.set (key o) none) n none h1
+        exact db_set_key key hk ((st.docs.set o none).set n none) (((st.db.set (key o) none).set (key n) none)) n
+          (some { d with analysed := d.text }) h2 |> fun h => by
+            intro w
+            have := h w
+            by_cases hw : w = n
+            · subst hw; simpa [Impl.Store.set] using this
+            · simpa [Impl.Store.set, hw] using this
+      · simp only [ho, Bool.false_eq_true, if_false]
+        exact dbIndex_inv key hk (st.docs.set o none) (st.db.set (key o) none) n disk h1
+
+theorem krun_inv (key : Nat → Nat) (hk : ∀ a b, key a = key b → a = b) (evs : List Impl.WEvent)
+    (st : Impl.KStore) (hinv : DbInv key st) : DbInv key (Impl.krun key st evs) := by
+  induction evs generalizing st with
+  | nil => exact hinv
+  | cons e es ih => exact ih _ (kstep_inv key hk st e hinv)
+
+theorem krun_docs (key : Nat → Nat) (evs : List Impl.WEvent) (st : Impl.KStore) :
+    (Impl.krun key st evs).docs = Impl.wrun st.docs evs := by
+  induction evs generalizing st with
+  | nil => rfl
+  | cons e es ih => simp only [Impl.krun, Impl.wrun]; rw [ih]; rfl
+
 end TrustVerif.C14
